@@ -191,3 +191,41 @@ def core_str_then_change(t):
                 yield [['add', s, None], ['str', ic], list(change), ['str', False]]
             for s2 in alpha[:8]:
                 yield [['add', s, None], ['str', ic], ['rm', 0], ['add', s2, None], ['str', False]]
+
+
+def leaf_counts(t):
+    """how many leaves of the content model carry each element name (forward= addresses the k-th of them)"""
+    import collections
+    c = collections.Counter()
+
+    def walk(p):
+        if p is None:
+            return
+        if p[0] == 'el':
+            c[p[1]] += 1
+        elif p[0] == 'rep':
+            walk(p[1])
+        else:
+            for q in p[1]:
+                walk(q)
+    walk(ref.MODELS[t])
+    return c
+
+
+def core_forward_first(t, n):
+    """an addition forwarded to a later same-name leaf (forward=1..k-1), followed by every sequence of <= n plain additions"""
+    alpha = ref.DFAS[t].alphabet
+    for s, k in sorted(leaf_counts(t).items()):
+        if k < 2:
+            continue
+        for f in range(1, min(k, 4)):
+            first = ['add', s, f]
+            yield [first]
+            for m in range(1, n + 1):
+                for w in itertools.product(alpha, repeat=m):
+                    yield [list(first)] + [['add', x, None] for x in w]
+
+
+def n_core_forward_first(t, n):
+    a = len(ref.DFAS[t].alphabet)
+    return sum(min(k, 4) - 1 for k in leaf_counts(t).values() if k >= 2) * sum(a ** m for m in range(n + 1))
